@@ -18,13 +18,16 @@ CLAIM = dict(
          "issues is scheme://bound-host/script-root/ + a relative path without '?' or '#' + the bound query string for slash / merged-slash "
          "redirects - for every request path including '//host/...' forms - or the canonical URL the builder produced for a rule of the matched "
          "endpoint, on [subdomain.]bound-server), C12_host_is_bound_server, C12_redirect_addresses_target, C12_converges_partial (the rule that "
-         "caused a slash / merged-slash redirect admits the target directly for the same method, so the follow-up is never NotFound / 405). "
+         "caused a slash / merged-slash redirect admits the target directly for the same method) and C12_converges_one_hop (the matcher answers "
+         "the follow-up of such a redirect with a direct match: no further redirect of that kind, no NotFound / 405). "
          "Tied to the code by the regenerated constants and statement pins of coq/C03/Gen.v and by differential execution (extracted model vs "
          "werkzeug, defaults and alias redirects included) on maps x adapters (schemes, script roots, subdomains, query arguments) x paths; an "
-         "impl-level oracle follows every redirect to a match of the denoted endpoint and arguments within 3 hops.",
+         "impl-level oracle follows every redirect to a match of the denoted endpoint and arguments within 3 hops; adapters are bound with Map.bind "
+         "and with Map.bind_to_environ on WSGI environs (raw non-ASCII and percent-encoded query strings), redirects are also followed end to "
+         "end through a WSGI application and the test client, which must see the query arguments of the original request.",
     note="Trusted: as C03 and C04; urllib.parse.urlunsplit/quote hand-modelled; encode_query_args of a mapping (werkzeug.urls._urlencode) is an "
-         "input of the model (the encoded string); that the follow-up of a redirect is a match of the very rule in one hop is checked by the "
-         "harness only (C12_converges_partial); redirect_to targets, alias rules without a canonical rule and rules shadowing each other's "
+         "input of the model (the encoded string); that the follow-up of a slash redirect is a match of the very rule that caused it (not only of a "
+         "priority-minimal rule serving the target) is checked by the harness only; redirect_to targets, alias rules without a canonical rule and rules shadowing each other's "
          "canonical URL are outside the claim.",
     design="6/C12")
 
@@ -32,6 +35,9 @@ SCHEMES = ["http", "http", "http", "https", "https", "https", "ws", "wss"]
 SCRIPTS = ["/", "/", "/app", "/app/", "/a/b", "/a/b/", ""]
 SERVERS = ["example.com", "example.com:8080", "EXAMPLE.com"]
 QUERIES = [None, None, "a=1&b=2", (("q", "x y"), ("r", "é")), "", (), "x=%2F%2Fevil.com&y", "a=1#frag"]
+
+
+ENV_QUERIES = ["q=été&lang=fr", "tag=日本", "q=%C3%A9t%C3%A9&q=%20", "a=1&b=2", "", "q=naïve&x=%2F%2Fevil.com", "k=v&k=w", "q=über+alles"]
 
 
 def gen_adapter(rng, ms: MapSpec) -> Adapter:
@@ -43,6 +49,10 @@ def gen_adapter(rng, ms: MapSpec) -> Adapter:
             sub = d.lit if d.lit is not None else rng.choice(["api", "de", "www"])
         else:
             sub = rng.choice([None, None, "", "", "api"])
+    if rng.random() < 0.3:
+        # bound the way an application binds: Map.bind_to_environ on a WSGI environ (query string through the environ)
+        return Adapter(scheme=rng.choice(["http", "https"]), server=rng.choice(SERVERS).lower(), script=rng.choice(SCRIPTS),
+                       subdomain=sub, query=rng.choice(ENV_QUERIES), environ=True)
     return Adapter(scheme=rng.choice(SCHEMES), server=rng.choice(SERVERS).lower(), script=rng.choice(SCRIPTS), subdomain=sub,
                    query=rng.choice(QUERIES))
 
@@ -73,6 +83,11 @@ def with_defaults(rng, ms: MapSpec) -> MapSpec:
             group.append(replace(a, segs=(Seg(lit=tag + "x"),) + tuple(head[1:])))
     if c > 0.5:
         group.append(replace(b, segs=(Seg(lit="old" + tag),) + b.segs, alias=True))
+    if rng.random() < 0.4:
+        # an alias that carries a default for the argument the canonical rule takes from the URL (more defaults than
+        # the canonical rule): Rule('/users.html', defaults={'page': 1}, alias=True) next to Rule('/users/page/<int:page>')
+        group.append(replace(b, segs=(Seg(lit="al" + tag + ".html"), *[s_ for s_ in mid if s_.lit is None]),
+                             branch=False, defaults=(("page", dv),), alias=True))
     if rng.random() < 0.4:
         # same endpoint, other arguments: no defaults apply to it
         group.append(replace(b, segs=(Seg(lit=tag + "y"), Seg(conv=Conv("i"), name="other")), branch=rng.random() < 0.5))
@@ -248,6 +263,41 @@ def judge_c12(chk, m, by_obj, ms: MapSpec, oracles, ad: Adapter, path: str, meth
     return None
 
 
+def e2e_query_preserved(m, ms: MapSpec, ad: Adapter, path: str, meth: str):
+    """end to end through a WSGI application and the test client: after following the router's redirects the
+    application must see the query arguments of the original request.  None, or (key, what)."""
+    from werkzeug.routing import RequestRedirect
+    from werkzeug.test import Client
+    from werkzeug.wrappers import Request, Response
+    from werkzeug.exceptions import HTTPException
+
+    @Request.application
+    def app(request):
+        a = m.bind_to_environ(request.environ, server_name=ad.server if ad.subdomain is not None else None)
+        try:
+            a.match()
+        except RequestRedirect as e:
+            return e
+        except HTTPException as e:
+            return e
+        return Response(repr(sorted(request.args.items(multi=True))))
+    env0 = ad.make_environ(path, meth)
+    want = repr(sorted(Request(env0).args.items(multi=True)))
+    c = Client(app)
+    c.allow_subdomain_redirects = True
+    host = (ad.subdomain + "." if ad.subdomain else "") + ad.server
+    try:
+        resp = c.open(path=path, base_url=f"{ad.scheme}://{host}{ad.script.rstrip('/')}/", query_string=ad.query_str(), method=meth,
+                      follow_redirects=True)
+    except Exception as e:  # noqa: BLE001
+        return "e2e-exception", f"client following the redirect raised {type(e).__name__}: {e}"
+    if resp.status_code == 200 and meth != "HEAD":
+        got = resp.get_data(as_text=True)
+        if got != want:
+            return "redirect-query", f"after following {[h.headers.get('Location') for h in resp.history]!r} the application sees {got}, the request had {want}"
+    return None
+
+
 def _has_builder(ms: MapSpec) -> bool:
     return any(r.defaults or r.alias for r in ms.rules)
 
@@ -316,6 +366,10 @@ def run(chk: Check) -> None:
                     kind = impl.split(" ")[0]
                     chk.count(f"outcome:{kind}")
                     bad = judge_c12(chk, m, by_obj, ms, oracles, ad, path, meth, impl)
+                    if kind == "R" and ad.environ and not bad and not path.startswith("//") and path.startswith("/") \
+                            and "?" not in path and "#" not in path and "\n" not in path:
+                        bad = e2e_query_preserved(m, ms, ad, path, meth)
+                        chk.count("redirect:followed-through-client")
                     if kind == "R":
                         nred += 1
                         chk.count("redirect:" + ("builder" if _has_builder(ms) else "path"))
